@@ -46,8 +46,8 @@ def run_fast(ctx, h, idx, root):
     if row["pyfail"] is not None:
         row["min"], row["cls"], row["min_runs"] = cc.minimise_row(
             h, kind_of, lambda c, nm: fast_once(ctx, c, idx, root, nm, variant, props), names)
-        if VARIANTS[variant][0] != "rich" and kind_of(fast_once(ctx, row["min"], idx, root, names, 0, props)) is None:
-            row["cls"] += "+" + VARIANTS[variant][0]             # needs the plain stream / the non-pruning importer
+        if VARIANTS[variant][0] != "rich" and kind_of(fast_once(ctx, row["min"], idx, root, names, 0, None)) is None:
+            row["cls"] += "+" + VARIANTS[variant][0]             # needs the --plain stream (which carries no properties)
         if props and kind_of(fast_once(ctx, row["min"], idx, root, names, variant, None)) is None:
             row["cls"] += "+revision-property"                   # needs a revision property (every `brz commit` sets one)
     return row
